@@ -469,10 +469,12 @@ def pendKey (p : Pend) : Option String := p.map (fun t => t.2.1)
 
 /-- state of `apply_decisions` while the deep one-sided decisions are processed: `F` lists the keys dealt with
     (the pending one included) and their new values; the root `M` holds them except the pending one -/
+def pendVal (p : Pend) : Option J := p.map (fun t => t.2.2.1)
+
 def DeepInv (base M F : List (String × J)) (pend : Pend) : Prop :=
   SK M ∧
-  (∀ x, lookupKV x M = if pendKey pend = some x then lookupKV x base else (lookupKV x F).or (lookupKV x base)) ∧
-  (∀ g kp vp pvp, pend = some (g, kp, vp, pvp) → PendOK vp g kp pvp ∧ lookupKV kp base = some vp ∧ lookupKV kp F = some pvp)
+  (∀ x, lookupKV x M = if pendKey pend = some x then pendVal pend else (lookupKV x F).or (lookupKV x base)) ∧
+  (∀ g kp vp pvp, pend = some (g, kp, vp, pvp) → PendOK vp g kp pvp ∧ lookupKV kp F = some pvp)
 
 theorem deep_loop (base : List (String × J)) : ∀ (items : List DeepItem) (tail : List Decision)
     (M F : List (String × J)) (pend : Pend),
@@ -497,18 +499,18 @@ theorem deep_loop (base : List (String × J)) : ∀ (items : List DeepItem) (tai
       cases pend with
       | none =>
         have hM : lookupKV it.k M = some it.v := by
-          rw [hlk it.k]; simp [pendKey, hitF, ho1]
+          rw [hlk it.k]; simp [pendKey, pendVal, hitF, ho1]
         obtain ⟨⟨g, hg, hstep⟩, _⟩ := deep_step it.k it.q' it.x it.v it.pv ho2 ho3 it.d ho4 (rest.map DeepItem.dec ++ tail) M hM
         have hinv' : DeepInv base M ((it.k, it.pv) :: F) (some (g, it.k, it.v, it.pv)) := by
           refine ⟨hsk, ?_, ?_⟩
           · intro x
             rw [hlk x]
             by_cases hx : it.k = x
-            · subst hx; simp [pendKey, hitF]
-            · simp [pendKey, hx, lookupKV_cons']
+            · subst hx; simp [pendKey, pendVal, hitF, ho1]
+            · simp [pendKey, pendVal, hx, lookupKV_cons']
           · intro g' kp vp pvp h
             cases h
-            exact ⟨hg, ho1, by simp [lookupKV_cons']⟩
+            exact ⟨hg, by simp [lookupKV_cons']⟩
         obtain ⟨M', pend', h1, h2⟩ := deep_loop base rest tail M ((it.k, it.pv) :: F) (some (g, it.k, it.v, it.pv))
           (fun i hi => hok i (List.mem_cons_of_mem _ hi)) hnd' restF hinv'
         refine ⟨M', pend', ?_, ?_⟩
@@ -518,13 +520,13 @@ theorem deep_loop (base : List (String × J)) : ∀ (items : List DeepItem) (tai
         · simpa [List.append_assoc] using h2
       | some pd =>
         obtain ⟨gp, kp, vp, pvp⟩ := pd
-        obtain ⟨hgp, hbase, hFkp⟩ := hpe gp kp vp pvp rfl
+        obtain ⟨hgp, hFkp⟩ := hpe gp kp vp pvp rfl
         have hne : kp ≠ it.k := by
           intro h; rw [h] at hFkp; rw [hFkp] at hitF; cases hitF
         have hM : lookupKV it.k M = some it.v := by
-          rw [hlk it.k]; simp [pendKey, hne, hitF, ho1]
+          rw [hlk it.k]; simp [pendKey, pendVal, hne, hitF, ho1]
         have hMkp : lookupKV kp M = some vp := by
-          rw [hlk kp]; simp [pendKey, hbase]
+          rw [hlk kp]; simp [pendKey, pendVal]
         obtain ⟨_, hstep2⟩ := deep_step it.k it.q' it.x it.v it.pv ho2 ho3 it.d ho4 (rest.map DeepItem.dec ++ tail) M hM
         obtain ⟨g, hg, hstep⟩ := hstep2 gp kp vp pvp hgp hne hMkp
         have hinv' : DeepInv base (insertKV kp pvp M) ((it.k, it.pv) :: F) (some (g, it.k, it.v, it.pv)) := by
@@ -534,15 +536,15 @@ theorem deep_loop (base : List (String × J)) : ∀ (items : List DeepItem) (tai
             by_cases hx : it.k = x
             · subst hx
               have : ¬ (it.k = kp) := fun h => hne h.symm
-              simp [pendKey, this, hne, hitF]
+              simp [pendKey, pendVal, this, hne, hitF, ho1]
             · by_cases hxk : x = kp
               · subst hxk
-                simp [pendKey, hx, lookupKV_cons', hFkp]
+                simp [pendKey, pendVal, hx, lookupKV_cons', hFkp]
               · have : ¬ (kp = x) := fun h => hxk h.symm
-                simp [pendKey, hx, hxk, this, lookupKV_cons']
+                simp [pendKey, pendVal, hx, hxk, this, lookupKV_cons']
           · intro g' kp' vp' pvp' h
             cases h
-            exact ⟨hg, ho1, by simp [lookupKV_cons']⟩
+            exact ⟨hg, by simp [lookupKV_cons']⟩
         obtain ⟨M', pend', h1, h2⟩ := deep_loop base rest tail (insertKV kp pvp M) ((it.k, it.pv) :: F) (some (g, it.k, it.v, it.pv))
           (fun i hi => hok i (List.mem_cons_of_mem _ hi)) hnd' restF hinv'
         refine ⟨M', pend', ?_, ?_⟩
@@ -590,8 +592,8 @@ theorem finish_root (base : List (String × J)) (M F : List (String × J)) (pend
       exact h'
   | some pd =>
     obtain ⟨gp, kp, vp, pvp⟩ := pd
-    obtain ⟨hgp, hbase, hFkp⟩ := hpe gp kp vp pvp rfl
-    have hMkp : lookupKV kp M = some vp := by rw [hlk kp]; simp [pendKey, hbase]
+    obtain ⟨hgp, hFkp⟩ := hpe gp kp vp pvp rfl
+    have hMkp : lookupKV kp M = some vp := by rw [hlk kp]; simp [pendKey, pendVal]
     have hfl := hgp.2.2 M hMkp
     have hskV : SK (insertKV kp pvp M) := insertKV_sorted _ _ _ hsk
     have hV : ∀ x, lookupKV x (insertKV kp pvp M) = (lookupKV x F).or (lookupKV x base) := by
